@@ -68,6 +68,15 @@ func (m *MemDBV2) Store(ctx context.Context, duty core.Duty, set core.SignedData
 	default:
 	}
 
+	// Notify all waiters that new data is available: a single buffered token would
+	// only wake one of them, so broadcast by closing the channel and replacing it.
+	// This also happens when an entry of the set is rejected, since the entries
+	// stored before it are visible to readers.
+	defer func() {
+		close(m.notify)
+		m.notify = make(chan struct{})
+	}()
+
 	for pubKey, data := range set {
 		subcommIdx, err := core.SyncSubcommitteeIndex(duty.Type, data)
 		if err != nil {
@@ -78,11 +87,6 @@ func (m *MemDBV2) Store(ctx context.Context, duty core.Duty, set core.SignedData
 			return err
 		}
 	}
-
-	// Notify all waiters that new data is available: a single buffered token would
-	// only wake one of them, so broadcast by closing the channel and replacing it.
-	close(m.notify)
-	m.notify = make(chan struct{})
 
 	return nil
 }
